@@ -22,6 +22,7 @@ RULE = (
     "the case."
 )
 ASSUMPTIONS = [
+    'the positional form shape(geometry..., matrix) is exercised with one Matrix object given to two shapes (stage 7), when all geometry values of the case are plain numbers',
     "SVG 2 10.2-10.7 equivalent paths; rect radii: an omitted radius takes the other one, both are clamped to half the "
     "side, a zero radius squares the corners; percentages of rx refer to the width, of ry to the height",
     "Path(shape.d()) passes through the path-data text: straight edges within 2e-11 scale-relative, arcs at the six "
